@@ -21,6 +21,7 @@ import (
 	"context"
 	"database/sql/driver"
 	"fmt"
+	"strconv"
 	"strings"
 
 	"github.com/arana-db/parser/ast"
@@ -433,23 +434,26 @@ func (i *insertExecutor) getPkValuesByColumn(ctx context.Context, execCtx *types
 	}
 
 	// generate pkValue by auto increment
-	for _, v := range pkValuesMap {
+	for k, v := range pkValuesMap {
 		tmpV := v
+		autoGenerated := false
 		if len(tmpV) == 1 {
 			// pk auto generated while single insert primary key is expression
 			if _, ok := tmpV[0].(*ast.FuncCallExpr); ok {
-				curPkValueMap, err := i.getPkValuesByAuto(ctx, execCtx)
-				if err != nil {
-					return nil, err
-				}
-				pkValuesMapMerge(&pkValuesMap, curPkValueMap)
+				autoGenerated = true
 			}
-		} else if len(tmpV) > 0 && tmpV[0] == nil {
-			// pk auto generated while column exists and value is null
+		}
+		if len(tmpV) > 0 && tmpV[0] == nil {
+			// pk auto generated while column exists and value is null (one row or several)
+			autoGenerated = true
+		}
+		if autoGenerated {
 			curPkValueMap, err := i.getPkValuesByAuto(ctx, execCtx)
 			if err != nil {
 				return nil, err
 			}
+			// the generated values take the place of the NULL / expression placeholders
+			delete(pkValuesMap, k)
 			pkValuesMapMerge(&pkValuesMap, curPkValueMap)
 		}
 	}
@@ -543,13 +547,19 @@ func (i *insertExecutor) autoGeneratePks(execCtx *types.ExecContext, autoColumnN
 		}
 
 		if len(rows.Columns()) > 0 {
-			var curStep []driver.Value
+			// one row: Variable_name, Value
+			curStep := make([]driver.Value, len(rows.Columns()))
 			if err := rows.Next(curStep); err != nil {
 				return nil, err
 			}
 
-			if curStepInt, ok := curStep[0].(int64); ok {
-				step = curStepInt
+			switch curStepVal := curStep[len(curStep)-1].(type) {
+			case int64:
+				step = curStepVal
+			case []byte:
+				step, _ = strconv.ParseInt(string(curStepVal), 10, 64)
+			case string:
+				step, _ = strconv.ParseInt(curStepVal, 10, 64)
 			}
 		} else {
 			return nil, fmt.Errorf("query is empty")
@@ -573,7 +583,7 @@ func pkValuesMapMerge(dest *map[string][]interface{}, src map[string][]interface
 	for k, v := range src {
 		tmpK := k
 		tmpV := v
-		(*dest)[tmpK] = append((*dest)[tmpK], tmpV)
+		(*dest)[tmpK] = append((*dest)[tmpK], tmpV...)
 	}
 }
 
